@@ -12,7 +12,7 @@ from ..pathgen import PathGen
 from ..specgen import normalise_cond, normalise_path, nested_leaves
 from ..describe import Inert0
 from ..ruleterms import enc_arg1, Tags
-from ..terms import Leaf, valida
+from ..terms import Leaf, Bin, valida
 from ..pathterms import PathT, MapT, MolT, cnd, lit
 from .c09 import IMPORTS
 from .c10 import limit_parts
@@ -37,7 +37,7 @@ def pathy(g, depth=2):
         return [pathy(g, depth - 1) for _ in range(g.r.randint(1, 2))]
     d = {}
     for _ in range(g.r.randint(1, 2)):
-        d[g.r.choice(["path", "path", "path.first", "path.len", "xpath", "my_path", "\\path", "C:\\path", "x\\path.len", "a", "b"])] = pathy(g, depth - 1)
+        d[g.r.choice(["path", "path", "path.first", "path.len", "xpath", "my_path", "\\path", "C:\\path", "x\\path.len", "C:\\Path", "\\PATH\\bin", "path.", "a", "b"])] = pathy(g, depth - 1)
     return d
 
 
@@ -93,6 +93,23 @@ def fix_leaf(g, l):
             l.args, l.kwargs = [g.r.choice(TYPES)], {}
     if l.method in ("is_instance", "keys_is_instance"):
         l.args = [g.r.choice(TYPES) for _ in range(g.r.randint(1, 3))]
+
+
+def _corpus11():
+    """Literal mappings whose keys look like path-spec keys, hold the escape code, or hold it next to 'path' in another letter case, in the
+    positions from_spec looks at (the argument, an item of a list argument, a value of a mapping argument, items_contain names)."""
+    out = []
+    for key in ("path", "xpath", "path.", "path.len", "\\path", "C:\\path", "C:\\Path", "\\PATH\\bin", "my\\Path.first"):
+        m = {key: 1, "n": [2]}
+        out.append(Leaf("Value", "equal_to", [copy.deepcopy(m)]))
+        out.append(Leaf("Value", "in_", [[copy.deepcopy(m), 1]]))
+        out.append(Leaf("Value", "not_equal_to", [{"k": copy.deepcopy(m), "j": 1}]))
+        out.append(Leaf("Value", "items_contain", [], {key: 1, "n": 2}))
+        out.append(Bin("or", Leaf("Value", "equal_to", [{key: ["a"]}]), Leaf("Value", "truthy", [])))
+    return out
+
+
+CORPUS11 = _corpus11()
 
 
 def impl_roundtrip(t, probes, used=False):
@@ -159,6 +176,8 @@ def run(tier, seed, model_ok, spec_ok, replay=None):
                 fix_leaf(g, l)
                 if not meaningful(l) or not all(jsonable(a) for a in list(l.args) + list(l.kwargs.values())):
                     ok = False
+        if i < len(CORPUS11):
+            t, ok = copy.deepcopy(CORPUS11[i]), True      # regression corpus first
         if not ok:
             continue
         try:
